@@ -94,7 +94,9 @@ fn gauges_part(rep: &mut Report, thorough: bool) -> (u64, u64, Vec<Value>) {
                     let future_or_now = st.iter().filter(|r| NOW0 + r.expiry >= now).count() as i64;
                     let total = st.len() as i64;
                     classes.insert(format!("rows{}:future{}", total.min(3), future.min(3)));
-                    let ok = status == 200 && matches!((a, x), (Some(a), Some(x)) if a + x == total && future <= a && a <= future_or_now);
+                    // the statement is explicit about the boundary: expiry == now has passed
+                    let _ = future_or_now;
+                    let ok = status == 200 && matches!((a, x), (Some(a), Some(x)) if a == future && x == total - future);
                     if !ok {
                         let oracle = if total == 0 { "gauges-empty-store" } else { "gauges" };
                         if reported.insert(oracle) {
@@ -292,6 +294,6 @@ pub fn run(tier: &str, replay: Option<Value>) -> ! {
     rep.cov("exhaustive", true);
     rep.cov("parts", json!({"gauge_readings": n1, "leases_listed": n2}));
     rep.cov("samples", s1);
-    rep.assume("a lease whose expiry equals now exactly may be counted either way");
+    rep.assume("gauges are whole-second comparisons: active = #(expiry > now), expired = #(expiry <= now), judged exactly, including the instant expiry == now");
     rep.finish()
 }
